@@ -117,7 +117,9 @@ PredictAssign(c) == IF c.vt = "HEADER" THEN PredictHeader(c) ELSE PredictLocal(c
 -----------------------------------------------------------------------------
 (* built-in functions: Builtins (from BuiltinsTable) is a sequence of       *)
 (* [fn, scope, ret, sigs: sequence of sequences of argument types]          *)
-NClasses == 8        \* the concretiser knows classes 1..NClasses per argument type (fewer distinct ones for some types)
+NClasses == 20       \* the concretiser knows classes 1..NClasses per argument type (fewer distinct ones for most types; STRING has 20:
+                     \* lengths 0-3, not set, truncated / malformed escapes, invalid UTF-8, lone quote / backslash, separators only, 64 KiB)
+NPair == 8           \* classes combined pairwise with INTEGER parameters
 \* all class vectors of length n when there are few, else the "star": all-k vectors plus one argument varied at a time;
 \* and, for every INTEGER parameter, all class pairs with every other parameter - sizes and counts multiply
 \* (len(s) * count, width - len(s), ...) and such products wrap only for particular *combinations* of extremes
@@ -126,7 +128,7 @@ Star(n) == {[i \in 1..n |-> k] : k \in 1..NClasses} \cup
            {[i \in 1..n |-> IF i = j THEN k ELSE b] : j \in 1..n, k \in 1..NClasses, b \in {1, 2}}
 IntPairs(types) == LET n == Len(types) IN
   {[i \in 1..n |-> IF i = x[1] THEN x[3] ELSE IF i = x[2] THEN x[4] ELSE 2]
-     : x \in {y \in (1..n) \X (1..n) \X (1..NClasses) \X (1..NClasses) : y[1] # y[2] /\ types[y[1]] = "INTEGER"}}
+     : x \in {y \in (1..n) \X (1..n) \X (1..NPair) \X (1..NPair) : y[1] # y[2] /\ types[y[1]] = "INTEGER"}}
 Vectors(types, full) == LET n == Len(types) IN
   IF n = 0 THEN {<<>>} ELSE IF full /\ n <= 2 THEN AllVectors(n) ELSE Star(n) \cup IntPairs(types)
 BuiltinFam(i, full) ==
@@ -152,6 +154,26 @@ DepthBound(E) == IF Cyclic(E) THEN Guard + 1 ELSE Cardinality(Reach(E, {1}))
 CallCells == { [k |-> "calls", edges |-> {<<e[1], e[2]>> : e \in E}, nreq |-> n, functional |-> f, cyclic |-> Cyclic(E), depth |-> DepthBound(E)]
                  : E \in EdgeSets, n \in 1..MaxReq, f \in BOOLEAN }
 PredictCalls(c) == IF c.cyclic THEN "error" ELSE "value"
+
+(* LARGE structured call graphs: linearly many subroutines, exponentially many paths.  shape "ring": s_k calls        *)
+(* s_k+1 (twice when doubled); "ladder": s_k calls s_k+1 and s_k+2; "layers": layers of 3, every sub calls all of    *)
+(* the next layer; recursive: the last one(s) call s_0 again.  CheckFastlyCallTreeLimit walks this graph at every    *)
+(* request initialisation: with memoised totals it is linear.  Cost(k) = sum over calls of (1 + cost(callee)),        *)
+(* saturated at the limit; above MaxCallTree the program is rejected ("Too many sub calls"), a recursive one is      *)
+(* stopped by the limit or by the call-depth guard - in every case a reported error, within the watchdog.            *)
+MaxCallTree == 25000
+Sat(x) == IF x > MaxCallTree THEN MaxCallTree + 1 ELSE x
+RECURSIVE RingCost(_, _), LadderCost(_), LayerCost(_)
+RingCost(levels, dbl) == IF levels = 0 THEN 0 ELSE Sat((IF dbl THEN 2 ELSE 1) * (1 + RingCost(levels - 1, dbl)))
+LadderCost(levels) == IF levels <= 0 THEN 0 ELSE IF levels = 1 THEN 1 ELSE Sat(2 + LadderCost(levels - 1) + LadderCost(levels - 2))
+LayerCost(layers) == IF layers <= 1 THEN 0 ELSE Sat(3 * (1 + LayerCost(layers - 1)))
+BigCost(c) == CASE c.shape = "ring" -> RingCost(c.size - 1, c.doubled) [] c.shape = "ladder" -> Sat(LadderCost(IF c.size > 24 THEN 24 ELSE c.size - 1))
+                [] c.shape = "layers" -> LayerCost(c.size \div 3)
+BigCallCells == { [k |-> "bigcalls", shape |-> sh, size |-> n, doubled |-> d, recursive |-> r, functional |-> f, nreq |-> 2]
+                    : sh \in {"ring", "ladder", "layers"}, n \in {6, 12, 20, 30, 49, 60}, d \in BOOLEAN, r \in BOOLEAN, f \in BOOLEAN }
+\* the entry call is guarded by a header no request carries (the graph is walked at initialisation, not executed); only
+\* `call` statements count, so functional graphs cost nothing; closing the cycle can only add to the cost
+PredictBig(c) == IF ~c.functional /\ BigCost(c) > MaxCallTree THEN "error" ELSE "any"
 
 (* include graphs: node 0 = main, 1..2 = modules m1, m2; an edge i -> j is `include "mj";` (j = 0: include "main") *)
 Mods == 0..2
@@ -202,6 +224,7 @@ Keys == CASE Mode = "assign"  -> {<<vt, op>> : vt \in LeftTypes, op \in Ops}
           [] Mode = "include" -> {<<0, 0>>}
           [] Mode = "request" -> {<<g, 0>> : g \in {"echo", "query", "regex", "cookie"}}
           [] Mode = "jump"    -> {<<c, 0>> : c \in {"plain", "fcall", "fexpr"}}
+          [] Mode = "bigcalls" -> {<<sh, 0>> : sh \in {"ring", "ladder", "layers"}}
           [] Mode = "initerr" -> {<<0, 0>>}
           [] Mode = "director" -> {<<t, 0>> : t \in {"random", "fallback", "hash", "client", "chash"}}
 Fam(key) ==
@@ -211,10 +234,11 @@ Fam(key) ==
     [] Mode = "include" -> IncludeCells
     [] Mode = "request" -> {c \in RequestCells : c.prog = key[1]}
     [] Mode = "jump"    -> {c \in JumpCells : c.callkind = key[1]}
+    [] Mode = "bigcalls" -> {c \in BigCallCells : c.shape = key[1]}
     [] Mode = "initerr" -> InitErrCells
     [] Mode = "director" -> {c \in DirectorCells : c.dtype = key[1]}
 Predict(c) == CASE c.k = "assign" -> PredictAssign(c) [] c.k = "builtin" -> "any" [] c.k = "calls" -> PredictCalls(c)
-                [] c.k = "include" -> PredictInclude(c) [] c.k = "request" -> "any" [] c.k = "jump" -> "any" [] c.k = "director" -> "any"
+                [] c.k = "include" -> PredictInclude(c) [] c.k = "request" -> "any" [] c.k = "jump" -> "any" [] c.k = "bigcalls" -> PredictBig(c) [] c.k = "director" -> "any"
                 [] c.k = "initerr" -> "error"
 
 Init == phase = "part" /\ item \in Keys
